@@ -23,8 +23,8 @@ import (
 	batchcontext "github.com/openkruise/rollouts/pkg/controller/batchrelease/context"
 	bgcloneset "github.com/openkruise/rollouts/pkg/controller/batchrelease/control/bluegreenstyle/cloneset"
 	bgdeployment "github.com/openkruise/rollouts/pkg/controller/batchrelease/control/bluegreenstyle/deployment"
-	partcloneset "github.com/openkruise/rollouts/pkg/controller/batchrelease/control/partitionstyle/cloneset"
 	canarydeployment "github.com/openkruise/rollouts/pkg/controller/batchrelease/control/canarystyle/deployment"
+	partcloneset "github.com/openkruise/rollouts/pkg/controller/batchrelease/control/partitionstyle/cloneset"
 	partdaemonset "github.com/openkruise/rollouts/pkg/controller/batchrelease/control/partitionstyle/daemonset"
 	partdeployment "github.com/openkruise/rollouts/pkg/controller/batchrelease/control/partitionstyle/deployment"
 	partstatefulset "github.com/openkruise/rollouts/pkg/controller/batchrelease/control/partitionstyle/statefulset"
@@ -43,7 +43,8 @@ type ArithInput struct {
 	Knob   *IOS   `json:"knob,omitempty"`
 	// status.replicas of the workload: equal to N in the steady state, different while a scale is in flight. Not an input of
 	// the model: the arithmetic is about the configured size
-	StatusN *int `json:"status_n,omitempty"`
+	StatusN       *int `json:"status_n,omitempty"`
+	StatusUpdated *int `json:"status_updated,omitempty"` // status.updatedReplicas (updatedNumberScheduled): progress already made when the batch is (re-)entered
 }
 
 type ArithObs struct {
@@ -149,6 +150,10 @@ func (arithEngine) Gen(r *rand.Rand, idx int, tier string) any {
 	if chance(r, 30) {
 		sn := pick(r, 0, in.N/2, in.N+1, 2*in.N, 3*in.N+7, r.Intn(2*in.N+2))
 		in.StatusN = &sn
+	}
+	if chance(r, 45) {
+		su := pick(r, 0, 1, in.N/2, in.N, r.Intn(in.N+1))
+		in.StatusUpdated = &su
 	}
 	if in.Kind == "deploy-canary" {
 		// the knob is the canary Deployment's spec.replicas: what an earlier batch (possibly of a larger plan or a larger
@@ -380,6 +385,17 @@ func (arithEngine) Run(inAny any) (res any) {
 		o.Status.Replicas = sn32
 	case *apps.Deployment:
 		o.Status.Replicas = sn32
+	}
+	if in.StatusUpdated != nil {
+		su := int32(*in.StatusUpdated)
+		switch o := obj.(type) {
+		case *kruiseappsv1alpha1.CloneSet:
+			o.Status.UpdatedReplicas = su
+		case *kruiseappsv1beta1.StatefulSet:
+			o.Status.UpdatedReplicas = su
+		case *kruiseappsv1alpha1.DaemonSet:
+			o.Status.UpdatedNumberScheduled = su
+		}
 	}
 	cli := &countingClient{Client: fake.NewClientBuilder().WithScheme(FullScheme()).WithObjects(append([]client.Object{obj}, extra...)...).Build()}
 	release := &v1beta1.BatchRelease{ObjectMeta: metav1.ObjectMeta{Namespace: "ns", Name: "br", UID: "br-uid"}}
